@@ -261,6 +261,21 @@ fn check(property: &str, tier: &str) {
             println!("violation class {class}: run {run}, step {}: {}", mv.step, mv.detail);
             violation_lines.push(format!("VIOLATION property={} replay={}", property, path.display()));
         }
+        // determinism self-check: a slice of the batch executed twice more, with 2 workers and with
+        // all workers; the per-run outcomes (plan digest, trace digest) must agree exactly
+        let slice = (runs / 100).clamp(50, if thorough { 5000 } else { 500 }).min(runs);
+        let a = run_batch(slice, 2, 600.0, &|r| sim.run_one(seed, r));
+        let b = run_batch(slice, worker_count(), 600.0, &|r| sim.run_one(seed, r));
+        let det_ok = a.trace_digest == b.trace_digest && a.nontrivial_digests == b.nontrivial_digests && a.violating_runs == b.violating_runs;
+        if !det_ok && batch.violations.is_empty() {
+            println!("HARNESS-ERROR: determinism self-check failed for {} (slice of {slice} runs: digests {:016x} vs {:016x})", sim.name(), a.trace_digest, b.trace_digest);
+            std::process::exit(2);
+        }
+        let mut extra: std::collections::BTreeMap<String, Value> = Default::default();
+        extra.insert(
+            "determinism_selfcheck".into(),
+            json!({"slice_runs": slice, "executions": 2, "worker_counts": [2, worker_count()], "batch_trace_digest": format!("{:016x}", a.trace_digest), "identical": det_ok}),
+        );
         let mut samples = Vec::new();
         for r in [0u64, 1, runs / 2] {
             if r < runs {
@@ -274,7 +289,7 @@ fn check(property: &str, tier: &str) {
             samples,
             components_real: sim.components_real(),
             components_stub: sim.components_stub(),
-            extra: Default::default(),
+            extra,
         });
     }
 
